@@ -707,7 +707,7 @@ func ruleDT5(c *Ctx) {
 	okIDs := true
 	why := ""
 	for _, em := range c.emissions() {
-		if em.Fn != ce {
+		if !c.inUnit(em.Fn, ce) {
 			continue
 		}
 		for _, fl := range []string{"ID", "TaskID", "FromID", "ToID"} {
@@ -828,7 +828,7 @@ func (c *Ctx) compactGuards(ce *ssa.Function) {
 	}
 	byType := map[string]*Emission{}
 	for _, em := range c.emissions() {
-		if em.Fn == ce && len(em.Types) == 1 {
+		if c.inUnit(em.Fn, ce) && len(em.Types) == 1 {
 			byType[em.Types[0]] = em
 		}
 	}
@@ -1235,6 +1235,39 @@ func ruleDT7(c *Ctx) {
 			l0 := strings.TrimSuffix(strings.TrimSuffix(l, ":T"), ":F")
 			if allowed(l) || allowed(l0+":T") || allowed(l0+":F") {
 				continue
+			}
+			if bf.Derived {
+				continue // judged at the helper call it derives from
+			}
+			if c.seenThrough(bf.A) {
+				// a predicate helper: allowed when everything it tests is allowed
+				okAll, any := true, false
+				for _, other := range branchFacts(re) {
+					if other.E.From != from {
+						continue
+					}
+					atoms := []factAtom{}
+					if other.Derived {
+						atoms = append(atoms, factAtom{other.A, other.Holds})
+					}
+					for _, alt := range other.Alts {
+						atoms = append(atoms, alt...)
+					}
+					for _, fa := range atoms {
+						any = true
+						curEnv = fa.A.Env
+						la := c.replayFactLabel(branchFact{A: fa.A, Holds: fa.Holds})
+						la0 := strings.TrimSuffix(strings.TrimSuffix(la, ":T"), ":F")
+						if !(allowed(la) || allowed(la0+":T") || allowed(la0+":F")) {
+							okAll = false
+							l0 = la0
+						}
+					}
+				}
+				curEnv = nil
+				if any && okAll {
+					continue
+				}
 			}
 			// does reaching the effect depend on this branch's outcome?
 			viaT := reach(from, map[edge]bool{{from, 1}: true}, blocked)[blk]
